@@ -48,6 +48,7 @@ type numericSpec struct {
 	inv        InvOpts
 	nontrivial func(w *World, ex *Expected, sel *Selection) bool
 	rule       string
+	feed       bool // also drive sizes.Graph directly in every delivery order
 }
 
 func genNumericScenario(c *Ctx, rt *rapid.T, sp *numericSpec) *Scenario {
@@ -235,12 +236,24 @@ func registerNumeric(sp *numericSpec) {
 	Register(&Prop{
 		ID: sp.prop,
 		Check: func(c *Ctx, rt *rapid.T) {
+			if sp.feed && (G{rt}).Chance(1, 3, "graphfeed") {
+				sc := genFeedScenario(G{rt}, sp.prop)
+				if v := judgeGraphFeed(c, sc, sp.prop, sp.fields); v != nil {
+					c.Fail(rt, sc, v.Class, v.Detail)
+				}
+				return
+			}
 			sc := genNumericScenario(c, rt, sp)
 			if v := judgeNumeric(c, sc, sp); v != nil {
 				c.Fail(rt, sc, v.Class, v.Detail)
 			}
 		},
-		Replay:     func(c *Ctx, sc *Scenario) *Violation { return judgeNumeric(c, sc, sp) },
+		Replay: func(c *Ctx, sc *Scenario) *Violation {
+			if sc.Engine == "graphfeed" {
+				return judgeGraphFeed(c, sc, sp.prop, sp.fields)
+			}
+			return judgeNumeric(c, sc, sp)
+		},
 		Rule:       sp.rule,
 		Components: componentsA,
 	})
@@ -268,21 +281,21 @@ func init() {
 
 	g3 := DefaultGen
 	g3.MaxCommits, g3.MaxTags, g3.MaxBlobs, g3.MaxTrees = 16, 8, 3, 4
-	registerNumeric(&numericSpec{prop: "C03", fields: DepthFields, gen: g3,
+	registerNumeric(&numericSpec{prop: "C03", fields: DepthFields, gen: g3, feed: true,
 		inv: InvOpts{RefOpts: true, Roots: true, CwdKinds: []string{"top"}},
 		nontrivial: func(w *World, ex *Expected, sel *Selection) bool {
 			return ex.MaxHistoryDepth >= 3 || ex.MaxTagDepth >= 2
 		},
-		rule: "as C01 with commit DAGs up to 16 commits (merges, octopus, several roots, equal / increasing / decreasing / random committer dates) and tag chains; rev-list commit order drawn from the linear extensions of child-before-parent; non-trivial: history depth >= 3 or tag depth >= 2; distinct by scenario hash"})
+		rule: "as C01 with commit DAGs up to 16 commits (merges, octopus, several roots, equal / increasing / decreasing / random committer dates) and tag chains; rev-list commit order drawn from the linear extensions of child-before-parent; non-trivial: history depth >= 3 or tag depth >= 2; one third of the evaluations instead feed sizes.Graph directly (Graph-feed driver): every tag permutation and every parents-first linear extension of small DAGs; distinct by scenario hash"})
 
 	g4 := DefaultGen
 	g4.MaxTrees, g4.MaxEntries, g4.MaxCommits, g4.NameStyle = 14, 6, 5, 1
-	registerNumeric(&numericSpec{prop: "C04", fields: CheckoutFields, gen: g4,
+	registerNumeric(&numericSpec{prop: "C04", fields: CheckoutFields, gen: g4, feed: true,
 		inv: InvOpts{RefOpts: true, Roots: true, CwdKinds: []string{"top"}},
 		nontrivial: func(w *World, ex *Expected, sel *Selection) bool {
 			return ex.MaxDirs >= 3 && ex.MaxDepth >= 2
 		},
-		rule: "as C01 with tree DAGs up to 14 trees x 6 entries (sharing, repetition, empty trees, all entry kinds); tree delivery order drawn per run; non-trivial: some tree expands to >= 3 directories and depth >= 2; distinct by scenario hash"})
+		rule: "as C01 with tree DAGs up to 14 trees x 6 entries (sharing, repetition, empty trees, all entry kinds); tree delivery order drawn per run; non-trivial: some tree expands to >= 3 directories and depth >= 2; one third of the evaluations instead feed sizes.Graph directly in every tree permutation (<= 6 trees); distinct by scenario hash"})
 }
 
 var componentsA = map[string]string{
